@@ -299,8 +299,9 @@ type sval struct {
 }
 
 // spec strings (replayable):
-//   b:true  i:<int>:<smi|int64|dnum|text>  d:<digits>:<E>:<sign>:<new|text>  inf:<sign>
-//   s:<hex>:<str|concat|except>   S:<length>   t:<literal text>
+//
+//	b:true  i:<int>:<smi|int64|dnum|text>  d:<digits>:<E>:<sign>:<new|text>  inf:<sign>
+//	s:<hex>:<str|concat|except>   S:<length>   t:<literal text>
 func build(spec string) (sv sval, err error) {
 	defer func() {
 		if r := recover(); r != nil {
